@@ -1034,6 +1034,9 @@ class Engine:
                 if tgt is not None and _contains_tracked(tgt):
                     raise Unsupported(f"unmodelled function {short} receives a value with tracked resources "
                                       f"({_describe(tgt)}): its effect on them is unknown")
+                if isinstance(a, VRef) and a.mut and isinstance(tgt, VAgg) and tgt.name not in ('tuple',) and (tgt.fields or tgt.extra):
+                    # havocking a concrete container / struct behind a &mut would silently change what later code sees
+                    raise Unsupported(f"unmodelled function {short} may mutate a concrete value ({_describe(tgt)[:60]}) through &mut: its effect is unknown")
         self.stats.opaque[short] = self.stats.opaque.get(short, 0) + 1
         dty = fr.fn.local_types.get(t.dest.local) if not t.dest.proj else _proj_ty(t.dest)
         n = sum(1 for e in st.events if e[0] == 'call' and e[1] == short) + 1
